@@ -9,6 +9,7 @@ import (
 	"go/constant"
 	"go/token"
 	"go/types"
+	"regexp"
 	"sort"
 	"strings"
 
@@ -80,6 +81,9 @@ type deferRec struct {
 
 type fnCtx struct {
 	atHit map[string]bool
+	// source texts of the calls named by called("...") in the contract: a ghost flag per text records whether such a
+	// call has been executed on the path
+	calledRefs map[string]bool
 	e          *Engine
 	fn         *ssa.Function
 	key        string
@@ -98,6 +102,7 @@ type fnCtx struct {
 }
 
 type frame struct {
+	lexPos token.Pos // source position of the clause being evaluated: names resolve to the variables lexically in scope there
 	lastMapRange, lastMapRangeKS, lastMapDom0 string // the map iterator most recently created in this frame
 	evalPos token.Pos // source position of the call site being asserted (incase)
 	fc       *fnCtx
@@ -191,7 +196,7 @@ func (fc *fnCtx) havoc(st *state, key string) {
 			st.heap[k] = fc.sc.declare("hv_"+shortKey(k), heapSort(fc.e.u, k))
 		}
 		for k := range st.heap {
-			if _, ok := fc.heap0[k]; !ok {
+			if _, ok := fc.heap0[k]; !ok && !strings.HasPrefix(k, "X|called:") {
 				st.heap[k] = fc.sc.declare("hv_"+shortKey(k), heapSort(fc.e.u, k))
 			}
 		}
@@ -461,6 +466,15 @@ func (e *Engine) genFunction(fn *ssa.Function) (fc *fnCtx, err error) {
 	fr.top = true
 	// axioms
 	fc.emitAxioms()
+	fc.calledRefs = map[string]bool{}
+	for _, src := range fc.c.allSources() {
+		for _, m := range calledRe.FindAllStringSubmatch(src, -1) {
+			fc.calledRefs[normText(m[1])] = true
+		}
+	}
+	for text := range fc.calledRefs {
+		st.heap[calledKey(text)] = "false"
+	}
 	// parameters
 	var args []string
 	for _, p := range fn.Params {
@@ -546,7 +560,9 @@ func (e *Engine) genFunction(fn *ssa.Function) (fc *fnCtx, err error) {
 			// a body-only assertion may mention locals that do not exist on every return path: it is checked
 			// at the returns where they do (at least one, or the contract is rejected below)
 			aenv := *env
+			fr.lexPos = rr.instr.Pos()
 			aenv.vars = fr.shadowed(env.vars, rr.instr.Block())
+			fr.lexPos = token.NoPos
 			{
 				// the names of the results (r0.., result, err, named results) always mean the values returned
 				renv := &specEnv{vars: map[string]TV{}}
@@ -1077,6 +1093,9 @@ func (fr *frame) loopVars(h *ssa.BasicBlock) map[string]TV {
 				break
 			}
 			if phi.Comment != "" {
+				if lex := fr.lexObject(phi.Comment); lex != nil && phi.Pos().IsValid() && lex.Pos().IsValid() && lex.Pos() != phi.Pos() {
+					continue
+				}
 				if t, ok := fr.regs[phi]; ok {
 					vars[phi.Comment] = TV{T: t, Sort: u.sortOf(phi.Type()), Typ: phi.Type()}
 				}
@@ -1225,6 +1244,10 @@ func (fr *frame) namedAt(b *ssa.BasicBlock, strict bool) map[string]ssa.Value {
 				}
 				if _, isConst := dr.X.(*ssa.Const); isConst {
 					// (the builder records "is nil" for a variable defined by a composite literal before the real value)
+					continue
+				}
+				if lex := fr.lexObject(id.Name); lex != nil && dr.Object() != lex {
+					// (a variable of the same name that is not the one in scope at the clause: an inner or sibling scope)
 					continue
 				}
 				dup := false
@@ -1422,6 +1445,33 @@ func (fr *frame) enterLoop(h *ssa.BasicBlock, li *loopInfo, cur *state) {
 		fr.noEsc = true
 		fr.typeInv(cur, v, srt, phi.Type(), false)
 		fr.noEsc = false
+		if srt == "Int" {
+			// inferred invariant of a counter: a variable that every path round the loop leaves unchanged or adds a
+			// non-negative constant to never falls below its value on entry (and symmetrically); integers are
+			// mathematical (A1), so this holds without a check
+			if dir := monotone(phi, h); dir != 0 {
+				var bounds []string
+				for i, p := range h.Preds {
+					if h.Dominates(p) {
+						continue
+					}
+					if _, ok := fr.edges[[2]int{p.Index, h.Index}]; !ok {
+						continue
+					}
+					ev := fr.val(phi.Edges[i])
+					if dir > 0 {
+						bounds = append(bounds, fmt.Sprintf("(>= %s %s)", v, ev))
+					} else {
+						bounds = append(bounds, fmt.Sprintf("(<= %s %s)", v, ev))
+					}
+				}
+				if len(bounds) == 1 {
+					sc.assume(implies(cur.reach, bounds[0]))
+				} else if len(bounds) > 1 {
+					sc.assume(implies(cur.reach, "(or "+strings.Join(bounds, " ")+")"))
+				}
+			}
+		}
 		if phi.Comment == "rangeindex" {
 			// built-in invariant of the compiler-generated range counter (starts at -1, only incremented)
 			sc.assume(implies(cur.reach, fmt.Sprintf("(>= %s (- 1))", v)))
@@ -1485,6 +1535,13 @@ func (fr *frame) enterLoop(h *ssa.BasicBlock, li *loopInfo, cur *state) {
 			return ""
 		})
 		fc.havocKeys(cur, whole)
+		for text := range fc.calledRefs {
+			k := calledKey(text)
+			was := fc.hget(cur, k)
+			now := sc.declare("called", "Bool")
+			sc.assume(implies(was, now))
+			cur.heap[k] = now
+		}
 		var pks []string
 		for k := range pts {
 			pks = append(pks, k)
@@ -1943,6 +2000,9 @@ func (fr *frame) anchorText(pos token.Pos, want string) string {
 			if want == "div" && (nn.Op == token.QUO || nn.Op == token.REM) {
 				return e.sourceText(nn.Pos(), nn.End())
 			}
+			if want == "binop" {
+				return e.sourceText(nn.Pos(), nn.End())
+			}
 		case *ast.CallExpr:
 			if want == "call" {
 				return e.sourceText(nn.Fun.Pos(), nn.Fun.End())
@@ -2195,4 +2255,122 @@ type callErr struct {
 	err   string
 	reach string
 	blk   int
+}
+
+
+// monotone reports +1 if every value the loop-head phi receives on a back edge is the phi itself plus non-negative
+// constants (through the phis of inner joins and loops), -1 for non-positive constants, 0 otherwise.
+func monotone(phi *ssa.Phi, h *ssa.BasicBlock) int {
+	if b, ok := phi.Type().Underlying().(*types.Basic); !ok || b.Info()&types.IsInteger == 0 {
+		return 0
+	}
+	check := func(dir int) bool {
+		seen := map[ssa.Value]bool{}
+		var ge func(v ssa.Value) bool
+		ge = func(v ssa.Value) bool {
+			if v == phi {
+				return true
+			}
+			if seen[v] {
+				return true // a cycle through an inner loop's counter: by induction
+			}
+			switch x := v.(type) {
+			case *ssa.Phi:
+				if !h.Dominates(x.Block()) || x.Block() == h {
+					return false
+				}
+				seen[v] = true
+				for _, e := range x.Edges {
+					if !ge(e) {
+						return false
+					}
+				}
+				return true
+			case *ssa.BinOp:
+				c, ok := x.Y.(*ssa.Const)
+				if !ok || c.Value == nil || (x.Op != token.ADD && x.Op != token.SUB) {
+					return false
+				}
+				n, exact := constant.Int64Val(constant.ToInt(c.Value))
+				if !exact {
+					return false
+				}
+				if x.Op == token.SUB {
+					n = -n
+				}
+				if (dir > 0 && n < 0) || (dir < 0 && n > 0) {
+					return false
+				}
+				return ge(x.X)
+			}
+			return false
+		}
+		any := false
+		for i, p := range h.Preds {
+			if !h.Dominates(p) {
+				continue
+			}
+			any = true
+			if !ge(phi.Edges[i]) {
+				return false
+			}
+		}
+		return any
+	}
+	if check(1) {
+		return 1
+	}
+	if check(-1) {
+		return -1
+	}
+	return 0
+}
+
+
+var calledRe = regexp.MustCompile(`called\("([^"]*)"\)`)
+
+func calledKey(text string) string { return "X|called:" + normText(text) + "|Bool" }
+
+// normText: source text without white space (the form anchorText returns).
+func normText(s string) string { return strings.Join(strings.Fields(s), "") }
+
+// allSources: the source text of every clause of the contract.
+func (c *FuncContract) allSources() []string {
+	var out []string
+	for _, l := range [][]Clause{c.Requires, c.Ensures, c.Asserts} {
+		for _, cl := range l {
+			out = append(out, cl.Src)
+		}
+	}
+	for _, m := range []map[string][]Clause{c.At, c.After} {
+		for _, l := range m {
+			for _, cl := range l {
+				out = append(out, cl.Src)
+			}
+		}
+	}
+	for _, lp := range c.Loops {
+		for _, cl := range lp.Invariants {
+			out = append(out, cl.Src)
+		}
+	}
+	return out
+}
+
+
+// lexObject resolves a name at the position of the clause under evaluation (fr.lexPos) by Go's scoping rules; nil
+// when there is no position or no such variable.
+func (fr *frame) lexObject(name string) types.Object {
+	if !fr.lexPos.IsValid() || fr.fn.Pkg == nil || fr.fn.Pkg.Pkg == nil {
+		return nil
+	}
+	sc := fr.fn.Pkg.Pkg.Scope().Innermost(fr.lexPos)
+	if sc == nil {
+		return nil
+	}
+	_, obj := sc.LookupParent(name, fr.lexPos)
+	if v, ok := obj.(*types.Var); ok && !v.IsField() && v.Parent() != fr.fn.Pkg.Pkg.Scope() && v.Parent() != types.Universe {
+		return v
+	}
+	return nil
 }
